@@ -191,8 +191,11 @@ def value_range(ctx, spec, find_site, allowed, track, names=None, prefer=(), rep
             out.append(ctx.ok(spec, "%s `%s` at line %d ∈ %s ⊆ %s" % (what, ast.unparse(e), node.lineno, v.describe(names), allowed.describe(names)),
                               node.ast, mod, key=key))
             continue
-        if ra.uninterpreted:
-            u = ra.uninterpreted[0]
+        # a test the interval domain did not understand widens the value at the site only if it lies on some path TO the site
+        before = cfg_of(fn).back_reach([node.id])
+        unint = [u for u in ra.uninterpreted if u[0].id in before]
+        if unint:
+            u = unint[0]
             out.append(ctx.err(spec, "cannot decide range of %s: %s (line %d)" % (what, u[1], u[0].lineno), node.ast, mod))
             continue
         w = v.minus(allowed).witness(prefer)
